@@ -48,6 +48,7 @@ class Contract:
     is_lemma: bool = False
     quick_restricted: bool = False
     loop_invariants: dict = field(default_factory=dict)   # while-loop ordinal -> {"shapes": {...}, "inv": "..."}
+    log_calls: list = field(default_factory=list)     # callees (short names) whose calls are recorded in the ghost call log
     prove_in: str = "both"        # "thorough": the deductive part runs in the thorough tier only (bounded part in both)
     def deductive_body_known(self):
         """True when the contract is (or will be) proved against the body: its calls need no logging."""
@@ -145,6 +146,8 @@ class Registry:
                         c.loop_invariants = dict(val)
                     elif n == "prove_in":
                         c.prove_in = str(val)
+                    elif n == "log_calls":
+                        c.log_calls = list(val)
                 elif isinstance(b, ast.FunctionDef):
                     cprops = props
                     known = []
@@ -175,6 +178,11 @@ class Registry:
                         c.regions[b.name[len("region_"):]] = Clause(b.name, b, cprops)
                     elif b.name == "setup":
                         c.setup = b
+            if "EXT" in c.ghost:
+                # the call log belongs to one activation: clauses over it are proved for the target, never assumed by callers
+                for cl in c.ensures:
+                    if cl.mode == "both":
+                        cl.mode = "prove"
             if target in self.contracts and not c.deductive:
                 self.extra.append(c)          # additional bounded-only contract on an already contracted target
             else:
@@ -621,7 +629,8 @@ def apply_contract_at_call(ctx, fr, path, f: FuncRef, contract: Contract, env, n
         if res is None:
             res = _fresh_result(ctx, p, f, contract, env)
         p.note(f"callee contract {contract.target}" + ("" if contract.verify else " (ASSUMED, not verified)"))
-        if "EXT" in p.ghost and not contract.deductive_body_known():
+        forced = ctx.current is not None and contract.target.split(":")[1] in getattr(ctx.current.contract, "log_calls", [])
+        if "EXT" in p.ghost and (forced or not contract.deductive_body_known()):
             # calls that are only known through an assumed / bounded contract are recorded in the activation's call log
             # like external calls: (target, arguments in signature order, result)
             names = [a.arg for a in f.node.args.posonlyargs + f.node.args.args + f.node.args.kwonlyargs]
